@@ -33,16 +33,18 @@ Theorem C13_Cholera : check_live spec_Cholera "step_state" = true /\ check_live 
 Proof. exact live_Cholera. Qed.
 Theorem C13_Gonorrhea : check_live spec_Gonorrhea "step_state" = true /\ check_live spec_Gonorrhea "set_prognoses" = true.
 Proof. exact live_Gonorrhea. Qed.
+Theorem C13_Syphilis : check_live spec_Syphilis "step_state" = true /\ check_live spec_Syphilis "set_prognoses" = true.
+Proof. exact live_Syphilis. Qed.
 Theorem C13_HIV : check_live spec_HIV "step_state" = true /\ check_live spec_HIV "set_prognoses" = true.
 Proof. exact live_HIV. Qed.
 Print Assumptions C13_SIR. Print Assumptions C13_SIS. Print Assumptions C13_Measles. Print Assumptions C13_Ebola.
-Print Assumptions C13_Cholera. Print Assumptions C13_Gonorrhea. Print Assumptions C13_HIV.
+Print Assumptions C13_Cholera. Print Assumptions C13_Gonorrhea. Print Assumptions C13_HIV. Print Assumptions C13_Syphilis.
 
 (* no return to susceptible where immunity is permanent: no allowed arrow leads back *)
 Theorem C13_no_return_to_susceptible : forall sp a, no_return sp = true -> a <> "susceptible" -> arrow_ok sp a "susceptible" = false.
 Proof. exact arrow_no_return. Qed.
 Print Assumptions C13_no_return_to_susceptible.
-Theorem C13_permanent_immunity_models : no_return spec_SIR = true /\ no_return spec_Measles = true /\ no_return spec_Ebola = true /\ no_return spec_Cholera = true /\ no_return spec_HIV = true.
+Theorem C13_permanent_immunity_models : no_return spec_SIR = true /\ no_return spec_Measles = true /\ no_return spec_Ebola = true /\ no_return spec_Cholera = true /\ no_return spec_HIV = true /\ no_return spec_Syphilis = true.
 Proof. exact no_return_SIR_like. Qed.
 Print Assumptions C13_permanent_immunity_models.
 
